@@ -28,7 +28,8 @@ for cn, cv in CL:
 ''')
             first = False
         else:
-            out.append("//@ like: c06_cell_cl_absent_te_absent\n//@ tier: %s\n" % tier)
+            extra = "//@ props: C06 C08\n" if (tn == "absent" and cn in ("7", "0", "max")) else ""
+            out.append("//@ like: c06_cell_cl_absent_te_absent\n//@ tier: %s\n%s" % (tier, extra))
         rcv = "None" if cv is None else 'Some("%s")' % cv
         rtv = "None" if tv is None else 'Some("%s")' % tv
         out.append("#[kani::proof]\nfn %s() {\n    c06_case(%s, %s);\n}\n\n" % (name, rcv, rtv))
